@@ -15,6 +15,7 @@ the run is compared with an executable reference model of the SMT-LIB assertion 
    * is_sat / is_valid / is_unsat return the truth the back-end's answer implies.
 """
 import itertools
+import os
 
 from ..absint import AbsRaise, AObj, ClassRef, Unsupported
 from ..common import get_repo, parallel_map
@@ -235,7 +236,7 @@ def its_results(repo, tier="quick"):
 
 # ================================================================================================ text-interface solver
 from fractions import Fraction
-from .. import refsmt, textsem
+from .. import refsmt, textsem, refsem
 from ..extmodel import ExtModel
 from ..absint import ExtRef, Prim
 from ..world import World
@@ -1159,3 +1160,366 @@ def portfolio_results(repo, tier="quick"):
             out.extend((job[0], job[2]) + x for x in r)
         _PCACHE[key] = out
     return _PCACHE[key]
+
+
+# ================================================================================================ optimisation
+OPT_PROBE_MOD = "sa_probe.optimizers"
+OPT_PROBE_SRC = '''
+from pysmt.solvers.solver import IncrementalTrackingSolver
+from pysmt.solvers.options import SolverOptions
+from pysmt.solvers.eager import EagerModel
+from pysmt.decorators import clear_pending_pop
+from pysmt.optimization.optimizer import SUAOptimizerMixin, IncrementalOptimizerMixin
+
+
+class BruteOptions(SolverOptions):
+    def __call__(self, solver):
+        pass
+
+
+class BruteSolver(IncrementalTrackingSolver):
+    """Back-end whose verdicts and models come from an oracle of the analysis side (exhaustive search over
+    the small domain the scenario's assertions confine the symbols to)."""
+    LOGICS = []
+    OptionsClass = BruteOptions
+
+    def __init__(self, environment, logic, oracle, **options):
+        IncrementalTrackingSolver.__init__(self, environment=environment, logic=logic, **options)
+        self.oracle = oracle
+        self.native = [[]]
+        self.last_model = None
+        self.n_solve = 0
+
+    @clear_pending_pop
+    def _reset_assertions(self):
+        self.native = [[]]
+
+    @clear_pending_pop
+    def _add_assertion(self, formula, named=None):
+        self.native[-1].append(formula)
+        return formula
+
+    @clear_pending_pop
+    def _solve(self, assumptions=None):
+        live = [f for frame in self.native for f in frame]
+        if assumptions:
+            live = live + list(assumptions)
+        self.n_solve += 1
+        self.last_model = self.oracle(live)
+        return self.last_model is not None
+
+    @clear_pending_pop
+    def _push(self, levels=1):
+        for _ in range(levels):
+            self.native.append([])
+
+    @clear_pending_pop
+    def _pop(self, levels=1):
+        for _ in range(levels):
+            self.native.pop()
+
+    def get_model(self):
+        return EagerModel(assignment=dict(self.last_model), environment=self.environment)
+
+    def get_value(self, formula):
+        return self.get_model().get_value(formula)
+
+    def _exit(self):
+        pass
+
+
+class BruteSUA(SUAOptimizerMixin, BruteSolver):
+    pass
+
+
+class BruteIncremental(IncrementalOptimizerMixin, BruteSolver):
+    pass
+'''
+
+OPT_GOALS = "pysmt.optimization.goal"
+
+
+def _opt_scenarios():
+    """(name, assertions builder, symbol domains, goals...)  Every objective is bounded by the assertions, so its
+    optimum is attained."""
+    return ["int-box", "int-diag", "int-unsat", "bv-unsigned", "bv-signed", "bool-soft"]
+
+
+def _opt_job(job):
+    scen, mixin = job
+    repo = get_repo()
+    repo.add_virtual(PROBE_MOD, PROBE_SRC)
+    repo.add_virtual(OPT_PROBE_MOD, OPT_PROBE_SRC)
+    shape = Shape(("lit", True, BOOL))
+    INT = ("INT",)
+    B3 = ("BV", 3)
+    out = []
+
+    def call(w, it, f0):
+        it.apply_decorators = {"pysmt.decorators.clear_pending_pop"}
+        gm = w.repo.modules[OPT_GOALS]
+        Max = it.module_global(gm, "MaximizationGoal")
+        Min = it.module_global(gm, "MinimizationGoal")
+        MaxSMT = it.module_global(gm, "MaxSMTGoal")
+        x, y = w.symbol("x", INT), w.symbol("y", INT)
+        u, v = w.symbol("u", B3), w.symbol("v", B3)
+        a, b, c = w.symbol("a", ("BOOL",)), w.symbol("b", ("BOOL",)), w.symbol("c", ("BOOL",))
+        I = w.int_const
+
+        def box(t, lo, hi):
+            return [w.app("LE", I(lo), t), w.app("LE", t, I(hi))]
+        doms, asserts, goals = {}, [], []
+        if scen == "int-box":
+            asserts = box(x, 0, 3) + box(y, -1, 2)
+            doms = {x: range(-2, 5), y: range(-2, 5)}
+            goals = [("max x", Max, [x]), ("min x", Min, [x]), ("max x+y", Max, [w.app("Plus", x, y)]),
+                     ("min x-y", Min, [w.app("Minus", x, y)])]
+        elif scen == "int-diag":
+            asserts = box(x, 0, 3) + box(y, 0, 3) + [w.app("LE", w.app("Plus", x, y), I(4)), w.app("Not", w.app("Equals", x, y))]
+            doms = {x: range(-1, 5), y: range(-1, 5)}
+            goals = [("max x", Max, [x]), ("max y", Max, [y]), ("min x+y", Min, [w.app("Plus", x, y)]),
+                     ("max 2x+y", Max, [w.app("Plus", w.app("Times", I(2), x), y)])]
+        elif scen == "int-unsat":
+            asserts = box(x, 0, 3) + [w.app("LT", x, I(0))]
+            doms = {x: range(-2, 5)}
+            goals = [("max x", Max, [x]), ("min x", Min, [x])]
+        elif scen in ("bv-unsigned", "bv-signed"):
+            sg = scen == "bv-signed"
+            asserts = [w.app("BVULE", u, w.bv_const(6, 3)), w.app("Not", w.app("Equals", u, w.bv_const(3, 3))),
+                       w.app("Equals", v, w.app("BVAdd", u, w.bv_const(1, 3)))]
+            doms = {u: range(8), v: range(8)}
+            goals = [("max u", Max, [u, sg]), ("min u", Min, [u, sg]), ("max v", Max, [v, sg]), ("min v", Min, [v, sg])]
+        else:
+            asserts = [w.app("Or", w.app("Not", a), w.app("Not", b)), w.app("Implies", c, a)]
+            doms = {a: (False, True), b: (False, True), c: (False, True)}
+            goals = []
+        syms = list(doms)
+
+        def value_node(sym, val):
+            so = w.nsort(sym)
+            if so == refsem.BOOL:
+                return w.bool_const(val)
+            if so[0] == "BV":
+                return w.bv_const(val, so[1])
+            return w.int_const(val)
+
+        def satisfying(formulas):
+            res = []
+            for combo in itertools.product(*[list(doms[s_]) for s_ in syms]):
+                asg = dict(("sym:" + w.npayload(s_)[0], val) for s_, val in zip(syms, combo))
+                try:
+                    if all(sc.nodeval(w, g, asg) for g in formulas):
+                        res.append((combo, asg))
+                except (refsem.Undefined, sc.Malformed):
+                    continue
+            return res
+
+        def oracle(it_, a_, k_):
+            live = list(a_[0])
+            sat = satisfying(live)
+            if os.environ.get("SA_OPT_DEBUG"):
+                print("oracle", _names(w, live)[-160:], "->", sat[0][0] if sat else None)
+            if not sat:
+                return None
+            combo, _ = sat[0]
+            return dict((s_, value_node(s_, val)) for s_, val in zip(syms, combo))
+        logic = it.module_global(w.repo.modules["pysmt.logics"], "QF_LIA")
+        cls = OPT_PROBE_MOD + (".BruteSUA" if mixin == "sua" else ".BruteIncremental")
+        results = []
+
+        def fresh():
+            s_ = it.instantiate(ClassRef(cls), [w.env, logic, Prim(oracle, "oracle")], {})
+            for g in asserts:
+                it.call(it.getattr(s_, "add_assertion"), [g])
+            return s_
+
+        def objective_value(term, asg, signed=False):
+            val = sc.nodeval(w, term, asg)
+            so = w.nsort(term)
+            if so[0] == "BV" and signed:
+                return refsem.to_signed(val, so[1])
+            return val
+
+        def check_stack(s_, label):
+            got = it.iterate(it.getattr(s_, "assertions"))
+            if [id(g) for g in got] != [id(g) for g in asserts]:
+                return "%s leaves the assertion stack changed: %s" % (label, _names(w, got))
+            return None
+        sat_all = satisfying(asserts)
+        if scen == "bool-soft":
+            soft = [(a, 2), (b, 3), (c, 1)]
+            goal = it.call(MaxSMT, [])
+            for fm, wt in soft:
+                it.call(it.getattr(goal, "add_soft_clause"), [fm, wt])
+            best = max(sum(wt for fm, wt in soft if sc.nodeval(w, fm, asg)) for _, asg in sat_all)
+            for strategy in ("linear", "binary"):
+                s_ = fresh()
+                label = "optimize(MaxSMT a:2 b:3 c:1, %s)" % strategy
+                try:
+                    r = it.call(it.getattr(s_, "optimize"), [goal], {"strategy": strategy})
+                    if r is None:
+                        results.append((label, "bad", "reports no solution, the assertions are satisfiable"))
+                        continue
+                    model, cost = r
+                    cval = sc.nodeval(w, cost, {}) if w.is_node(cost) else cost
+                    prob = check_stack(s_, label)
+                    if cval != best:
+                        results.append((label, "bad", "returns cost %r, the maximal satisfied weight is %r" % (cval, best)))
+                    elif prob:
+                        results.append((label, "bad", prob))
+                    else:
+                        results.append((label, "ok", "cost %r" % (cval,)))
+                except AbsRaise as ex:
+                    results.append((label, "raise", "%s%s" % (ex.cls_name, proc._args(ex))))
+                except Unsupported as ex:
+                    results.append((label, "hang" if ("loop exceeds" in str(ex) or "step budget" in str(ex)) else "unsupported", str(ex)))
+            return results
+        goal_objs = []
+        for name, ctor, args in goals:
+            term = args[0]
+            signed = bool(args[1]) if len(args) > 1 else False
+            g = it.call(ctor, args)
+            if sat_all:
+                vals = [objective_value(term, asg, signed) for _, asg in sat_all]
+                best = max(vals) if ctor is Max else min(vals)
+            else:
+                best = None
+            goal_objs.append((name, g, term, signed, best, ctor is Max))
+        # single-objective
+        for name, g, term, signed, best, is_max in goal_objs:
+            for strategy in ("linear", "binary"):
+                s_ = fresh()
+                label = "optimize(%s, %s)" % (name, strategy)
+                try:
+                    r = it.call(it.getattr(s_, "optimize"), [g], {"strategy": strategy})
+                    prob = check_stack(s_, label)
+                    if best is None:
+                        results.append((label, "ok" if r is None and not prob else "bad",
+                                        prob or ("no solution reported" if r is None else "returns a solution although the assertions are unsatisfiable")))
+                        continue
+                    if r is None:
+                        results.append((label, "bad", "reports no solution, the assertions are satisfiable"))
+                        continue
+                    model, cost = r
+                    cval = sc.nodeval(w, cost, {})
+                    so = w.nsort(term)
+                    if so[0] == "BV" and signed:
+                        cval = refsem.to_signed(cval, so[1])
+                    masg = dict(("sym:" + w.npayload(k_)[0], sc.nodeval(w, v_, {})) for k_, v_ in model.attrs["assignment"].items())
+                    okm = all(sc.nodeval(w, g_, masg) for g_ in asserts) and objective_value(term, masg, signed) == cval
+                    if cval != best:
+                        results.append((label, "bad", "returns %r, the optimum is %r" % (cval, best)))
+                    elif not okm:
+                        results.append((label, "bad", "the model returned does not satisfy the assertions with the cost %r" % (cval,)))
+                    elif prob:
+                        results.append((label, "bad", prob))
+                    else:
+                        results.append((label, "ok", "optimum %r" % (cval,)))
+                except AbsRaise as ex:
+                    results.append((label, "raise", "%s%s" % (ex.cls_name, proc._args(ex))))
+                except Unsupported as ex:
+                    results.append((label, "hang" if ("loop exceeds" in str(ex) or "step budget" in str(ex)) else "unsupported", str(ex)))
+        # lexicographic and boxed on the first two goals
+        if len(goal_objs) >= 2:
+            (n1, g1, t1, s1, b1, m1), (n2, g2, t2, s2, b2, m2) = goal_objs[0], goal_objs[2 if len(goal_objs) > 2 else 1]
+            for strategy in ("linear", "binary"):
+                s_ = fresh()
+                label = "lexicographic_optimize([%s, %s], %s)" % (n1, n2, strategy)
+                try:
+                    r = it.call(it.getattr(s_, "lexicographic_optimize"), [[g1, g2]], {"strategy": strategy})
+                    prob = check_stack(s_, label)
+                    if not sat_all:
+                        results.append((label, "ok" if r is None and not prob else "bad", prob or "no solution"))
+                    elif r is None:
+                        results.append((label, "bad", "reports no solution, the assertions are satisfiable"))
+                    else:
+                        model, costs = r
+                        cv = [sc.nodeval(w, c_, {}) for c_ in it.iterate(costs)]
+                        first = [asg for _, asg in sat_all if objective_value(t1, asg, s1) == b1]
+                        v2 = [objective_value(t2, asg, s2) for asg in first]
+                        want = [b1, (max(v2) if m2 else min(v2))]
+                        if cv != want:
+                            results.append((label, "bad", "returns %r, the lexicographic optimum is %r" % (cv, want)))
+                        elif prob:
+                            results.append((label, "bad", prob))
+                        else:
+                            results.append((label, "ok", "optimum %r" % (cv,)))
+                except AbsRaise as ex:
+                    results.append((label, "raise", "%s%s" % (ex.cls_name, proc._args(ex))))
+                except Unsupported as ex:
+                    results.append((label, "hang" if ("loop exceeds" in str(ex) or "step budget" in str(ex)) else "unsupported", str(ex)))
+                s_ = fresh()
+                label = "boxed_optimize([%s, %s], %s)" % (n1, n2, strategy)
+                try:
+                    r = it.call(it.getattr(s_, "boxed_optimize"), [[g1, g2]], {"strategy": strategy})
+                    prob = check_stack(s_, label)
+                    if not sat_all:
+                        results.append((label, "ok" if r is None and not prob else "bad", prob or "no solution"))
+                    elif not isinstance(r, dict):
+                        results.append((label, "bad", "returns %r" % (r,)))
+                    else:
+                        cv = []
+                        for g_ in (g1, g2):
+                            ent = r.get(g_)
+                            cv.append(sc.nodeval(w, ent[1], {}) if ent else None)
+                        if cv != [b1, b2]:
+                            results.append((label, "bad", "returns %r, the separate optima are %r" % (cv, [b1, b2])))
+                        elif prob:
+                            results.append((label, "bad", prob))
+                        else:
+                            results.append((label, "ok", "optima %r" % (cv,)))
+                except AbsRaise as ex:
+                    results.append((label, "raise", "%s%s" % (ex.cls_name, proc._args(ex))))
+                except Unsupported as ex:
+                    results.append((label, "hang" if ("loop exceeds" in str(ex) or "step budget" in str(ex)) else "unsupported", str(ex)))
+            # Pareto front
+            s_ = fresh()
+            label = "pareto_optimize([%s, %s])" % (n1, n2)
+            try:
+                gen = it.call(it.getattr(s_, "pareto_optimize"), [[g1, g2]])
+                pts = []
+                for item in it.iterate(gen):
+                    model, costs = item
+                    pts.append(tuple(sc.nodeval(w, c_, {}) for c_ in it.iterate(costs)))
+                prob = check_stack(s_, label)
+                allp = set((objective_value(t1, asg, s1), objective_value(t2, asg, s2)) for _, asg in sat_all)
+
+                def dominates(p, q):
+                    b1_ = p[0] >= q[0] if m1 else p[0] <= q[0]
+                    b2_ = p[1] >= q[1] if m2 else p[1] <= q[1]
+                    return b1_ and b2_ and p != q
+                front = set(p for p in allp if not any(dominates(q, p) for q in allp))
+                if set(pts) != front or len(pts) != len(set(pts)):
+                    results.append((label, "bad", "yields %s, the Pareto front is %s" % (sorted(pts), sorted(front))))
+                elif prob:
+                    results.append((label, "bad", prob))
+                else:
+                    results.append((label, "ok", "front %s" % (sorted(front),)))
+            except AbsRaise as ex:
+                results.append((label, "raise", "%s%s" % (ex.cls_name, proc._args(ex))))
+            except Unsupported as ex:
+                results.append((label, "hang" if ("loop exceeds" in str(ex) or "step budget" in str(ex)) else "unsupported", str(ex)))
+        return results
+
+    def post(w, f, val, facts):
+        return proc.ProcResult(shape, "valid", val)
+    res = proc.run_proc(shape, call, post=post, services="full", max_paths=4,
+                        interp_kwargs={"max_steps": 30000000, "max_loop": 300})
+    if len(res) != 1 or res[0].kind != "valid":
+        r = res[0]
+        return [(scen, mixin, "%s/%s" % (scen, mixin), "unsupported", "%s %s" % (r.kind, str(r.detail)[:300]))]
+    return [(scen, mixin) + x for x in res[0].detail]
+
+
+_OCACHE = {}
+
+
+def optimizer_results(repo, tier="quick"):
+    key = (repo.root, tier)
+    if key not in _OCACHE:
+        jobs = [(s_, m) for s_ in _opt_scenarios() for m in ("sua", "inc")]
+        out = []
+        for r in parallel_map(_opt_job, jobs):
+            out.extend(r)
+        _OCACHE[key] = out
+    return _OCACHE[key]
